@@ -296,15 +296,23 @@ def chain_check(prop, tier):
         cs = [r[:5] for r in raw]
         for (p, q, outer) in ((2, 2, "SMA"), (3, 2, "RMA"), (2, 3, "WMA"), (2, 2, "EMA")):
             cls = {"SMA": SMA, "RMA": RMA, "WMA": WMA, "EMA": EMA}[outer]
-            hx = Hexital("h", fresh(raw), [EMA(period=p), cls(period=q, input_value=f"EMA_{p}", name_suffix="c")])
-            hx.calculate()
-            rep.inc("executions")
-            rep.inc("transitions")
-            got = hx.reading_as_list(f"{outer}_{q}_c")
             inner = R.ema(R.col(cs, "close"), p, 4)
             exp = {"SMA": R.sma, "RMA": R.rma, "WMA": R.wma, "EMA": R.ema}[outer](inner, q, 4)
-            cfg = {"label": f"chain-{outer}{q}(EMA{p})", "cls": outer, "kw": {}}
-            compare(prop, rep, cfg, exp, got, {"cfg": cfg["label"], "word": word, "raw": raw, "placement": ("chain", p, q, outer)})
+            for form in ("object", "dict"):  # the reader given as an Indicator object / as a configuration dict
+                reader = cls(period=q, input_value=f"EMA_{p}", name_suffix="c") if form == "object" else \
+                    {"indicator": outer, "period": q, "input_value": f"EMA_{p}", "name_suffix": "c"}
+                cfg = {"label": f"chain-{outer}{q}(EMA{p})-{form}", "cls": outer, "kw": {}}
+                case = {"cfg": cfg["label"], "word": word, "raw": raw, "placement": ("chain", p, q, outer, form)}
+                try:
+                    hx = Hexital("h", fresh(raw), [EMA(period=p), reader])
+                    hx.calculate()
+                    got = hx.reading_as_list(f"{outer}_{q}_c")
+                except Exception as e:
+                    rep.violation(f"{prop}|{outer}|chain-raised|{type(e).__name__}", dict(case, oracle="raised", error=repr(e)))
+                    continue
+                rep.inc("executions")
+                rep.inc("transitions")
+                compare(prop, rep, cfg, exp, got, case)
     return rep
 
 
